@@ -37,6 +37,15 @@ def run(ck):
     files = record(ck)
     ck.validate_traces('TimerTrace', 'Trace_Timer.cfg', files)
     ck.sample_lines(files[0], 4, skip=5)
+    # 3. the timers inside the composed machine: idle and counting programs with both timers on short auto-restart / single /
+    #    free-running periods, line and vectored routing, the host rewriting start values and configuration between slices;
+    #    Run(n) goes through Timer::GetMaxSkip / Skip inside Interpreter::Run, the specification only ticks: counters, MMIO
+    #    mirrors, ICU requests, latches and handler entries must agree after every slice (also slices of 2..5 cycles)
+    from props import sys_common
+    ck.build('sys_rec')
+    sfiles = sys_common.record(ck, ck.pick(6, 16), ck.pick(6, 12), tag='tmirq', mode='irq', seedoff=4100)
+    sfiles += sys_common.record(ck, ck.pick(2, 8), ck.pick(4, 10), tag='tmio', mode='io', seedoff=4300)
+    sys_common.validate(ck, sfiles)
     ck.assumptions += ['Timer.tla is a faithful reading of the C15 statement (reviewed by hand)',
                        'TLC, the Json/IOUtils community modules and g++ are trusted',
                        'full 32-bit width: the induction step Skip(t,k+1) = Tick(Skip(t,k)) for k below the horizon, Skip(t,0) = t and '
@@ -56,7 +65,9 @@ def record(ck):
 
 def replay(ck, path):
     path = path.split('#')[0]
-    if path.endswith('.ndjson'):
+    if os.path.basename(path).startswith(('tmirq_', 'tmio_')):
+        ck.validate_traces('SysTrace', 'Trace_Sys.cfg', [path], jvm=['-Xss64m'])
+    elif path.endswith('.ndjson'):
         ck.validate_traces('TimerTrace', 'Trace_Timer.cfg', [path])
     else:
         print(open(path).read()[-4000:])
